@@ -13,7 +13,8 @@ St == [tgt |-> <<tgt.k, tgt.s, tgt.r>>,
        toQ |-> [i \in 1..Len(toQ) |-> <<toQ[i].kind, toQ[i].ev, E(toQ[i].meta)>>],
        mf |-> <<mf.ev, mf.taken, mf.resumed, E(mf.meta)>>,
        g |-> <<hb["request"], hb["response"], ap["request"], ap["response"], handled,
-               fixed.browser, fixed.rinj, fixed.preempted, fixed.recap, calls, closed>>]
+               fixed.browser, fixed.rinj, fixed.preempted, fixed.recap, calls, closed>>,
+       oth |-> [i \in 1..Len(oth) |-> <<oth[i].r, oth[i].pos, oth[i].q, oth[i].back>>]]
 P(act) == PrintT(ToJson([src |-> St, act |-> act, dst |-> St', obs |-> out']))
 MInit == Init /\ PrintT(ToJson([init |-> St, obs |-> out]))
 MNext == \/ \E b, h \in BOOLEAN : InterceptRequest(b, h) /\ P([n |-> "InterceptRequest", browser |-> b, hdr |-> h])
@@ -26,5 +27,6 @@ MNext == \/ \E b, h \in BOOLEAN : InterceptRequest(b, h) /\ P([n |-> "InterceptR
          \* IdlePoll is a self-loop at every state: not printed; the harness performs one after
          \* every replayed edge (the real pump sees queue.Empty) before it compares
          \/ IdlePoll
+         \/ \E r \in BOOLEAN : EnqueueOther(r) /\ P([n |-> "EnqueueOther", r |-> r])
 MSpec == MInit /\ [][MNext]_vars
 ====
